@@ -98,6 +98,8 @@ def o_write(inp):
         cls.append("failed-block")
     if len(f.get("block_separator", "\n\n").strip()) > 0:
         cls.append("non-blank-separator")
+    if any(sp["t"] == "same" for sp in inp["lib"]) or any(isinstance(fs, dict) for sp in inp["lib"] if sp["t"] == "entry" for fs in sp["fields"]):
+        cls.append("same-object-held-twice")
     nontrivial = any(len(e.fields) >= 2 for e in entries) and fspec is not None
     if not isinstance(text, str):
         return (("type", repr(text), "str"), nontrivial, cls)
@@ -288,6 +290,14 @@ FIXED_LIBS = [
      {"t": "entry", "type": "misc", "key": "m", "fields": [["k123456", "{v}", 4]], "line": 4, "raw": "r"},
      {"t": "entry", "type": "misc", "key": "m", "fields": [["kk", "{dup}", 7]], "line": 6, "raw": "@misc{m, kk = {dup}}"}],
     [],
+    # one object held several times (a separator comment added again and again, a Field object listed twice)
+    [{"t": "ecomment", "comment": "-----", "line": 0, "raw": "r"},
+     {"t": "entry", "type": "article", "key": "k", "fields": [["a", "{1}", 0], ["bb", "{2}", 1], {"same": 0}], "line": 1, "raw": "r"},
+     {"t": "same", "of": 0},
+     {"t": "failed", "raw": "@a{x,\n y", "line": 5},
+     {"t": "same", "of": 3},
+     {"t": "icomment", "comment": "% x", "line": 3, "raw": "r"},
+     {"t": "same", "of": 0}],
 ]
 
 
@@ -391,4 +401,4 @@ def run(chk):
         "and library unchanged; value_column setter validation. Non-trivial: an entry with >= 2 fields under a non-default "
         "format (write), >= 2 fields (columns); distinct by case."
     )
-    chk.required_classes = ["auto", "auto>=2entries", "key-longer-than-column", "empty-indent", "zero-fields+trailing-comma", "failed+custom-comment", "non-blank-separator", "columns", "setter", "format-reuse", "interrupted-write", "edited-after-read"]
+    chk.required_classes = ["auto", "auto>=2entries", "key-longer-than-column", "empty-indent", "zero-fields+trailing-comma", "failed+custom-comment", "non-blank-separator", "columns", "setter", "format-reuse", "interrupted-write", "edited-after-read", "same-object-held-twice"]
